@@ -724,7 +724,11 @@ struct W1
     }
 
     // ================= fault-free (or naturally throwing) transition =================
-    const char *p1 = op_is_alias (op.kind) ? "C11,C01" : (trivial ? "C01,C13" : "C01");
+    // (a range-taking call must give the result of the same call with a random-access range,
+    //  i.e. the model's: C15 speaks for it as well)
+    const char *p1 = op_is_alias (op.kind) ? "C11,C01"
+                   : cx.has_range ? (trivial ? "C01,C15,C13" : "C01,C15")
+                   : (trivial ? "C01,C13" : "C01");
 
     if (cx.exc == EX_NONE || cx.exc == cx.expect_exc)
     {
